@@ -539,6 +539,15 @@ func (p *proverCtx) lin(v ssa.Value) *linexp {
 				if p.smallUnsigned(x.X) {
 					return p.lin(x.X)
 				}
+				// ... or a value the facts collected so far bound below 2^62
+				if p.depth < 2 {
+					p.depth++
+					small := p.prove(p.lin(x.X).scale(-1).addConst(int64(1) << 62))
+					p.depth--
+					if small {
+						return p.lin(x.X)
+					}
+				}
 			}
 		}
 	case *ssa.Call:
@@ -795,8 +804,11 @@ func (p *proverCtx) condFacts(cond ssa.Value, truth bool, why string) {
 // newProver collects the facts holding at the start of block b of f.
 func (c *Ctx) newProver(f *ssa.Function, b *ssa.BasicBlock) *proverCtx {
 	p := &proverCtx{c: c, f: f, block: b, seenVar: map[lvar]bool{}, stable: map[stableKey]bool{}, siteBlock: map[*ssa.Function]*ssa.BasicBlock{f: b}}
-	for _, ft := range factsAt(f, b) {
-		p.condFacts(ft.Cond, ft.Truth, "branch "+c.rel(condPosOf(ft)))
+	// outermost guard first: a later fact may need an earlier one to see through a conversion
+	// (uint -> int of a count that an earlier guard bounds)
+	fts := factsAt(f, b)
+	for i := len(fts) - 1; i >= 0; i-- {
+		p.condFacts(fts[i].Cond, fts[i].Truth, "branch "+c.rel(condPosOf(fts[i])))
 	}
 	return p
 }
